@@ -45,6 +45,9 @@ def run(rep, tier, prop="C01", extra_kinds=()):
         common.guarded(rep, "C03.3", c03.c03_3, rep, ix, M, cc_, br_)
     common.guarded(rep, "C03.5", c03.c03_5, rep, ix, M)
     if P == "C01":
+        # the free parameters the reader reports are the ones the evaluator registered: every writer of the parameter table is a known one
+        from . import c15 as _c15
+        common.guarded(rep, "C15.3", _c15.c15_3, rep, ix)
         # what the reader reports for the re-read text (parameters, variables) is that load's own data: the module tables hold nothing of an
         # earlier - possibly failed - load (shared with C12)
         from . import c05 as _c05
